@@ -6,8 +6,10 @@ def run(ctx):
     service.audit_service(ctx, 'C07')
     common.lake_build(['Smtb.Properties.C03'])
     common.audit(ctx, 'Smtb/Properties/C03.lean', ['Smtb.Properties.C03.insertionCircuit_sat_iff', 'Smtb.Properties.C03.deletionCircuit_sat_iff'])
+    common.lake_build(['Smtb.Properties.C07Link'])
+    common.audit(ctx, 'Smtb/Properties/C07Link.lean', ['Smtb.Properties.C07Link.' + t for t in ('circuitAcceptsInsertion_iff_sat', 'circuitAcceptsDeletion_iff_sat', 'prove_ok_iff_circuit_satisfiable')])
     ctx.assumptions += [service.IDEAL,
-                        "the circuit relation used by the model is the right-hand side of the C03 circuit theorems (audited above)",
+                        "the circuit relation of the model is PROVED equal to satisfiability of the full circuit in the Sat semantics (C07Link.circuitAccepts*_iff_sat, prove_ok_iff_circuit_satisfiable)",
                         "witness assembly reduces big values modulo r (gnark's SetBigInt); modelled, exercised by the root+r / hash+r generator classes"]
     ctx.trusted += ["gnark v0.8.0 groth16.Setup/Prove/Verify, gnark-crypto BN254"]
     runs = [['-seed', ctx.seed, '-n', ctx.pick(14, 300), '-depth', 2, '-batch', 2] + (['-second'] if ctx.thorough else [])]
